@@ -21,6 +21,7 @@ ASSUMPTIONS = [
     "a backend that answers NOT_LEADER_OR_FOLLOWER for a partition has not appended to it",
     "sub-requests of one attempt are independent (sync.WaitGroup fan-out); Go's random map order is a parameter `ord` of the model (any permutation per attempt)",
     "scripted backends always read the request frame before failing; `down=all` is all-or-nothing per case; backend hangs (no reply, connection kept open) are not generated: forwardToBackend has no deadline",
+    "two concurrent clients: exercised on disjoint topic sets with separate per-connection pools (as handleConnection creates them) and backends that hold replies until both clients' sub-requests are in flight; the model runs them one after the other on the shared routing table (their Invalidate calls commute)",
     "acks=0 fire-and-forget is modelled as one write per group (no reply, no retry); the unparsable-request raw path is not modelled; connection-pool reuse races are out of scope",
 ]
 TECHNIQUE = ("Lean 4 theorems (induction over the retry loop, for every routing table, backend oracle and processing order) about a "
@@ -68,10 +69,15 @@ def gen_case(rng, malformed=False):
     ops = [setup]
     for _ in range(rng.range(1, 4)):
         ops.append(gen_request(rng, fetch13, malformed))
+    if not fetch13 and not malformed and rng.chance(1, 2):
+        # two clients at once through the same proxy: client 0 on topics 0-1, client 1 on topics 2-3
+        a = gen_request(rng, False, False, pool=(0, 1))
+        b = gen_request(rng, False, False, pool=(2, 3))
+        ops.append("C %s || %s" % (a, b))
     return ops
 
 
-def gen_request(rng, fetch13, malformed):
+def gen_request(rng, fetch13, malformed, pool=None):
     if fetch13:
         kind, v = "F", 13
     elif rng.chance(1, 2):
@@ -81,7 +87,7 @@ def gen_request(rng, fetch13, malformed):
     nt = rng.choice([1, 1, 2, 2, 3])
     topics = []
     while len(topics) < nt:
-        t = rng.below(4)
+        t = rng.below(4) if pool is None else rng.choice(pool)
         if t not in topics or rng.chance(1, 6):
             topics.append(t)
     used = set()
@@ -98,7 +104,7 @@ def gen_request(rng, fetch13, malformed):
     if not entries:
         entries = [(0, [0])]
     tps = [(t, p) for t, ps in entries for p in ps]
-    if kind == "P" and rng.chance(1, 6):
+    if kind == "P" and pool is None and rng.chance(1, 6):
         return "A v=%d req=%s" % (v, ";".join("%d:%s" % (t, "+".join(map(str, ps))) for t, ps in entries))
     codes, faults = [], []
     flaky = rng.choice([0, 1, 2, 2, 3])
@@ -182,6 +188,9 @@ def recv_matches(impl, model):
 
 
 def same(impl_line, model_line):
+    if " || " in impl_line or " || " in model_line:
+        a, b = impl_line.split(" || "), model_line.split(" || ")
+        return len(a) == len(b) and all(same(x, y) for x, y in zip(a, b))
     if not impl_line.startswith("reply=") or not model_line.startswith("reply="):
         return impl_line == model_line
     if "anomaly=" in impl_line:
@@ -282,6 +291,12 @@ def run_lean_monitor(ck, ops, impl, tag):
     evaluated by the Lean driver on the implementation's replies and receive logs."""
     lines = []
     for o, r in zip(ops, impl):
+        if o.startswith("C "):       # two concurrent clients: each reply against its own request
+            parts, reps = o[2:].split(" || "), r.split(" || ")
+            reps += ["missing"] * (len(parts) - len(reps))
+            for po, pr in zip(parts, reps):
+                lines += [po, "> " + pr]
+            continue
         lines.append(o)
         if not o.startswith("setup"):
             lines.append("> " + r)
@@ -290,6 +305,12 @@ def run_lean_monitor(ck, ops, impl, tag):
     out = ck.lean_run("C27", fn, args=["--monitor"])
     verdicts, j = [], 0
     for o in ops:
+        if o.startswith("C "):
+            vs = [out[j + 1], out[j + 3]]
+            j += 4
+            bad = [v.split(" ", 1)[1] for v in vs if v.startswith("violation")]
+            verdicts.append("violation " + ",".join(bad) if bad else "ok")
+            continue
         j += 1
         if o.startswith("setup"):
             verdicts.append("-")
@@ -310,6 +331,29 @@ def examine(ck, ops, impl, model, verdicts=None):
         if o.startswith("setup"):
             continue
         kind = o.split()[0]
+        if kind == "C":
+            ck.count("req_two_concurrent_clients")
+            ctx = context_ops(ops, i)
+            parts, reps = o[2:].split(" || "), impl[i].split(" || ")
+            ck.case(tuple(ctx), nontrivial=True, sample={"ops": ctx, "impl": impl[i]})
+            mon = None
+            if len(reps) != len(parts):
+                mon = ("proxy-gave-no-reply", "concurrent clients: harness returned %r" % impl[i])
+            for po, pr in zip(parts, reps):
+                if mon is None:
+                    mon = monitor(po, pr, all_down=(kv(ctx[0], "down") == "all"))
+                    if mon is None and "anomaly=" in pr and "correlation" in pr:
+                        mon = ("reply-for-another-request", "reply carries another request's correlation id: " + kv(pr, "anomaly"))
+            if mon is None and verdicts is not None and verdicts[i].startswith("violation"):
+                names = verdicts[i].split(" ", 1)[1]
+                mon = (names.split(",")[0], "Lean spec of KafVerif.Props.C27 fails on the implementation's trace: " + names)
+            if mon:
+                ck.violation(mon[0] + "-under-concurrency", "C27 broken with two concurrent clients (%s): %s" % mon,
+                             {"ops": ctx, "expected": "each client's reply satisfies C27 for its OWN request",
+                              "actual": impl[i], "model": model[i] if model else None})
+            elif model is not None and not same(impl[i], model[i]) and first is None:
+                first = i
+            continue
         ck.count("req_" + {"P": "produce", "F": "fetch", "A": "produce_acks0"}[kind])
         ck.count("v" + kv(o, "v"))
         faults = parse_script(kv(o, "fault"))
